@@ -117,6 +117,8 @@ fn c03_pin_info_body() {
     assert!(b.checkers.to_u64() == want_c, "VERIF update_pin_info body: checkers {:#x} want {:#x}", b.checkers.to_u64(), want_c);
     assert!(b.pinned.to_u64() == want_p, "VERIF update_pin_info body: pinned {:#x} want {:#x}", b.pinned.to_u64(), want_p);
     assert!(same_view(&view(&b), &p) && b.zobrist == before.zobrist, "VERIF update_pin_info modified another field");
+    kani::cover!(npops() == 1 && want_p != 0, "reach: a pinner with exactly one blocker");
+    kani::cover!(npops() == 1 && want_c & g::bit(popped(0)) != 0, "reach: a slider gives check");
 }
 
 /// ingredient 2 (spec-only lemma): the from-scratch sets are exactly the union of the body contributions
@@ -196,6 +198,7 @@ fn c06_build() {
         }
         Err(e) => assert!(inner.validate() == Err(e), "VERIF build error differs from validate()"),
     }
+    kani::cover!(builder.build().is_ok(), "reach: build accepted");
 }
 
 #[kani::proof]
